@@ -46,6 +46,10 @@ def run(F, rep, tier):
     parse_error_dropped(F, rep)
     child_span(F, rep)
     second_definition_is_reported(F, rep)
+    # a mismatch between a call's literal arguments and the callee's parameters is the call's: it is found there when the callee
+    # has been checked before the caller - which is the dependency order, i.e. every mention is an edge (shared with C11)
+    import c11
+    c11.dependency_visit(F, rep)
     import c20
     c20.prelude_yields(F, rep)
 
